@@ -155,13 +155,18 @@ fn nested<'i, 't>(p: &mut Parser<'i, 't>, src: &str, out: &mut Vec<OTok>, ws: &m
 }
 
 pub fn tokenize(src: &str) -> Vec<OTok> {
+    tokenize_full(src).0
+}
+
+/// tokens plus the comments that follow the last token
+pub fn tokenize_full(src: &str) -> (Vec<OTok>, Vec<String>) {
     let mut input = ParserInput::new(src);
     let mut parser = Parser::new(&mut input);
     let mut out = vec![];
     let mut ws = false;
     let mut comments = vec![];
     walk(&mut parser, src, &mut out, &mut ws, &mut comments);
-    out
+    (out, comments)
 }
 
 /// exact decimal value of a CSS number spelling as f64 (our own scanner; not cssparser's f32)
